@@ -12,6 +12,7 @@ import (
 
 	"github.com/smarthome-go/homescript/v3/homescript/diagnostic"
 	herrors "github.com/smarthome-go/homescript/v3/homescript/errors"
+	"github.com/smarthome-go/homescript/v3/homescript/optimizer"
 
 	"hv/drive"
 	"hv/fw"
@@ -310,7 +311,25 @@ func (m *monitor) diag(d diagnostic.Diagnostic) spanStatus {
 	return st
 }
 
-// analysis monitors everything an analysis produced.
+// optimizerDiags runs the optimizer pass on an accepted program the way cmd/main.go does (only after
+// an analysis without errors) and returns its diagnostics. A Go panic of the pass is not C08's
+// business (C05/C19): it is returned as text.
+func optimizerDiags(ao drive.AnalyzeOut) (ds []diagnostic.Diagnostic, panicked string) {
+	if ao.Errors > 0 || ao.Modules == nil {
+		return nil, ""
+	}
+	defer func() {
+		if r := recover(); r != nil {
+			ds, panicked = nil, util.Clip(fmt.Sprint(r), 200)
+		}
+	}()
+	o := optimizer.NewOptimizer()
+	_, ds = o.Optimize(ao.Modules)
+	return ds, ""
+}
+
+// analysis monitors everything an analysis (and, for an accepted program, the optimizer pass that
+// follows it) produced.
 func (m *monitor) analysis(ao drive.AnalyzeOut) {
 	for _, e := range ao.Syntax {
 		m.syntaxError(e)
@@ -320,6 +339,11 @@ func (m *monitor) analysis(ao drive.AnalyzeOut) {
 	}
 	m.obs["syntax_errors"] += int64(len(ao.Syntax))
 	m.obs["diagnostics"] += int64(len(ao.Diags))
+	od, _ := optimizerDiags(ao)
+	for _, d := range od {
+		m.diag(d)
+	}
+	m.obs["optimizer_diagnostics"] += int64(len(od))
 }
 
 // spanRange converts an inside span into an inclusive rune range.
